@@ -381,6 +381,41 @@ def run(ctx):
                "value written derives from Instant::now(): %s; other sources: %s — with the lost packet's send time as the start of "
                "recovery, every other loss (and ack) from the same flight is treated as a new round trip: the window shrinks again "
                "and also grows while in recovery" % (from_now, from_param or "none"))
+    # ---------------------------------------------------------------- R10
+    ctx.rule("R10", "RTT samples (RFC 9002 §5.1): Rtt::update is called from on_ack_rcvd only when the largest newly acknowledged packet "
+                    "IS the frame's largest acknowledged (equality) and an ack-eliciting packet was newly acknowledged")
+    oa = ctx.anchor("R10", "qcongestion::congestion::CongestionController::on_ack_rcvd")
+    if oa:
+        ups = [(i, t) for i, t in oa.calls() if re.search(r"rtt::(Arc)?Rtt::update$", callee(t))]
+        ctx.floor("R10", "Rtt::update calls in on_ack_rcvd", len(ups), 1)
+        for (i, t) in ups:
+            eq_ok, ae_ok, seen = False, False, []
+            for (sw, kind, text, truth) in deciders(oa, i):
+                seen.append("%s:%s=%s" % (kind, text[-60:], truth))
+                if kind == "cmp" and " Eq " in text and truth is True and "AckFrame::largest" in text:
+                    eq_ok = True
+                if kind == "cmp" and " Ne " in text and truth is False and "AckFrame::largest" in text:
+                    eq_ok = True
+            for sbk in oa.live_blocks():
+                tt = oa.term(sbk)
+                if tt["t"] == "switch" and oa.dominates(sbk, i):
+                    pl = op_place(tt["on"])
+                    if pl is not None:
+                        for og in local_origins(oa, tt["on"]):
+                            if og[0] == "place" and "include_ack_eliciting" in place_fields(og[1]):
+                                tr, fa = switch_edges_on_local(oa, sbk)
+                                if i not in oa.reachable_from(list(fa), avoid={sbk}):
+                                    ae_ok = True
+                        if "include_ack_eliciting" in place_fields(pl):
+                            tr, fa = switch_edges_on_local(oa, sbk)
+                            if i not in oa.reachable_from(list(fa), avoid={sbk}):
+                                ae_ok = True
+            ctx.ob("R10", "%s|RTT sampled only when largest newly acked == largest acknowledged" % oa.short, eq_ok, oa.where(t["line"]),
+                   "deciding conditions of the update: %s — with `<=` (always true) a late ACK that fills a hole below an already "
+                   "acknowledged largest yields a sample of now - send time of an old packet: smoothed_rtt, the loss threshold and "
+                   "the PTO are inflated arbitrarily" % seen[:5])
+            ctx.ob("R10", "%s|RTT sampled only when an ack-eliciting packet was newly acknowledged" % oa.short, ae_ok, oa.where(t["line"]),
+                   "guarded by include_ack_eliciting: %s" % ae_ok)
     # ---------------------------------------------------------------- R7
     ctx.rule("R7", "a packet is declared lost only if it is still in flight and (sent before the time threshold or at least "
                    "packet_threshold packets older than the largest acknowledged): the state write is reachable only through "
